@@ -113,19 +113,32 @@ func c17(args []string) error {
 	{
 		K, FG := 400*R, 8
 		before := stats.HTTPReturnCodesTotalsForVerif()
-		for k := 0; k < K; k++ {
-			key := fmt.Sprintf("9%05d", k)
-			start := make(chan struct{})
+		// (batches of 40 keys: the goroutines leave a spin barrier together and walk the batch in the same order, so
+		// every key of the batch is met for the first time by several of them at nearly the same instant)
+		const batch = 40
+		for k0 := 0; k0 < K; k0 += batch {
+			keys := make([]string, 0, batch)
+			for k := k0; k < k0+batch && k < K; k++ {
+				keys = append(keys, fmt.Sprintf("9%05d", k))
+			}
+			var ready, start atomic.Int32
 			var wg sync.WaitGroup
 			for g := 0; g < FG; g++ {
 				wg.Add(1)
 				go func() {
 					defer wg.Done()
-					<-start
-					stats.HTTPReturnCodesIncr(key)
+					ready.Add(1)
+					for start.Load() == 0 {
+					}
+					for _, key := range keys {
+						stats.HTTPReturnCodesIncr(key)
+					}
 				}()
 			}
-			close(start)
+			for i := 0; ready.Load() < int32(FG) && i < 2000; i++ {
+				time.Sleep(50 * time.Microsecond)
+			}
+			start.Store(1)
 			wg.Wait()
 		}
 		after := stats.HTTPReturnCodesTotalsForVerif()
